@@ -252,5 +252,58 @@ Proof.
     pose proof (o_cnt _ _ O c Hc) as Hcnt.
     destruct (o_ready _ _ O c Hc) as [H|H]; [lia | rewrite Hq in H; destruct H | exact H].
 Qed.
+
+(* ---- roots first: every node without parameters is visited before any node with parameters ---- *)
+Definition isroot (n : nat) : bool := Nat.eqb (nreq n) 0.
+Lemma relax_q s e : exists new, q (relax s e) = q s ++ new /\ (forall c, In c new -> c = fst e).
+Proof.
+  destruct e as [c i]. unfold relax. destruct (memn i (prov s c)); [exists []; rewrite app_nil_r; split; auto; intros ? []|].
+  cbn [q]. destruct (Nat.eqb (cnt s c - 1) 0); [exists [c]; split; auto; intros ? [<-|[]]; auto | exists []; rewrite app_nil_r; split; auto; intros ? []].
+Qed.
+Lemma fold_relax_q : forall es s, exists new, q (fold_left relax es s) = q s ++ new /\ (forall c, In c new -> exists i, In (c, i) es).
+Proof.
+  induction es as [|e es IH]; intros s; simpl; [exists []; rewrite app_nil_r; split; auto; intros ? []|].
+  destruct (relax_q s e) as (n1 & E1 & H1). destruct (IH (relax s e)) as (n2 & E2 & H2).
+  exists (n1 ++ n2). rewrite E2, E1, app_assoc. split; auto. intros c Hc. apply in_app_or in Hc. destruct Hc as [Hc|Hc].
+  - specialize (H1 c Hc). destruct e as [c' i]. simpl in H1. subst. exists i. left; auto.
+  - destruct (H2 c Hc) as (i & Hi). exists i. right; auto.
+Qed.
+Definition RF (s : st) (vis : list nat) : Prop :=
+  exists r a v1 v2, q s = r ++ a /\ vis = v1 ++ v2 /\ Forall (fun n => isroot n = true) r /\ Forall (fun n => isroot n = false) a /\
+                    Forall (fun n => isroot n = false) v1 /\ Forall (fun n => isroot n = true) v2 /\ (r <> [] -> v1 = []).
+Lemma kahn_rf : forall fuel s vis, RF s vis ->
+  exists v1 v2, kahn fuel s vis = rev (v1 ++ v2) /\ Forall (fun n => isroot n = false) v1 /\ Forall (fun n => isroot n = true) v2.
+Proof.
+  induction fuel as [|fuel IH]; intros s vis (r & a & v1 & v2 & Hq & Hv & Fr & Fa & F1 & F2 & Hp); simpl.
+  - exists v1, v2. subst. auto.
+  - destruct (q s) as [|n rest] eqn:Eq; [exists v1, v2; subst; auto|].
+    set (s0 := {| q := rest; cnt := cnt s; prov := prov s |}).
+    destruct r as [|n' r'].
+    + (* the head is a node with parameters *)
+      simpl in Hq. subst a. inversion Fa as [|? ? Hn Fa']; subst.
+      match goal with |- context [memn n ?l] => destruct (memn n l) end.
+      * apply IH. exists [], rest, v1, v2. repeat split; auto.
+      * destruct (fold_relax_q (outs n) s0) as (new & En & Hnew). apply IH.
+        exists [], (rest ++ new), (n :: v1), v2. repeat split; auto.
+        -- apply Forall_app. split; auto. apply Forall_forall. intros c Hc. destruct (Hnew c Hc) as (i & Hi). apply outs_src in Hi.
+           unfold isroot. apply Nat.eqb_neq. lia.
+        -- intros H; congruence.
+    + simpl in Hq. injection Hq as <- ->. inversion Fr as [|? ? Hn Fr']; subst. specialize (Hp ltac:(discriminate)). subst v1. simpl in *.
+      match goal with |- context [memn n ?l] => destruct (memn n l) end.
+      * apply IH. exists r', a, [], v2. repeat split; auto.
+      * destruct (fold_relax_q (outs n) s0) as (new & En & Hnew). apply IH.
+        exists r', (a ++ new), [], (n :: v2). repeat split; auto.
+        -- rewrite En. unfold s0. cbn [q]. rewrite app_assoc. reflexivity.
+        -- apply Forall_app. split; auto. apply Forall_forall. intros c Hc. destruct (Hnew c Hc) as (i & Hi). apply outs_src in Hi.
+           unfold isroot. apply Nat.eqb_neq. lia.
+Qed.
+Theorem topo_roots_first : exists R NR, topo = R ++ NR /\ Forall (fun n => nreq n = 0) R /\ Forall (fun n => nreq n <> 0) NR.
+Proof.
+  destruct (kahn_rf (S nn) init []) as (v1 & v2 & E & F1 & F2).
+  - exists (q init), [], [], []. rewrite app_nil_r. repeat split; auto. unfold init. cbn [q]. apply Forall_forall. intros n Hn. apply filter_In in Hn. apply Hn.
+  - exists (rev v2), (rev v1). unfold topo. rewrite E, rev_app_distr. split; auto. split; apply Forall_rev.
+    + eapply Forall_impl; [|exact F2]. intros n Hn. apply Nat.eqb_eq. exact Hn.
+    + eapply Forall_impl; [|exact F1]. intros n Hn. apply Nat.eqb_neq. exact Hn.
+Qed.
 End Kahn.
 Print Assumptions topo_valid.
